@@ -356,18 +356,118 @@ def _do(reg, c):
         setattr(e, {"scalar": "is_scalar", "lower": "lower_index", "downto": "is_downto",
                     "dir": "direction"}[c["key"]], c["val"])
         return []
+    if op == "set_lower":
+        reg.get(c["kind"], c["x"]).lower_index = c["ival"]
+        return []
     if op == "set_default":
         sdn.namespace_manager.default = c["val"]
         return []
     if op == "reset":
         return []
+    if op in QUERY_OPS:
+        return QUERY_OPS[op](reg, c)
     raise HarnessError("unknown op %r" % (op,))
+
+
+# ------------------------------------------------------------------------------------------------
+# queries.  Their observations are left in reg.last_ret / reg.last_info for the trace record.
+def _href_from_path(reg, path):
+    from spydrnet.util.hierarchical_reference import HRef
+    return HRef.from_sequence([reg.get(k, i) for k, i in path])
+
+
+def _path_of_href(reg, href):
+    items = []
+    h = href
+    while h is not None:
+        items.append(h.item)
+        h = h.parent
+    out = []
+    for it in reversed(items):
+        k = kind_of(it)
+        if k is None:
+            out.append(["X", 0])      # e.g. an outer pin used as a hierarchical item
+        else:
+            out.append([k, reg.id_of(it, k)])
+    return out
+
+
+def _href_info(reg, href, path=None):
+    from spydrnet.util.hierarchical_reference import HRef
+    path = path if path is not None else _path_of_href(reg, href)
+    try:
+        items = []
+        h = href
+        while h is not None:
+            items.append(h.item)
+            h = h.parent
+        other = HRef.from_sequence(list(reversed(items)))
+        same, hsh = (other is href), (hash(other) == hash(href) and other == href)
+    except Exception:
+        same, hsh = False, False
+    try:
+        valid = bool(href.is_valid)
+    except Exception:
+        valid = "error"
+    try:
+        unique = bool(href.is_unique)
+    except Exception:
+        unique = "error"
+    try:
+        name = href.name if valid is True else ""
+    except Exception:
+        name = "<error>"
+    return {"h": path, "name": name, "valid": valid, "unique": unique, "same": same, "hash": hsh}
+
+
+def _q_hq(reg, c):
+    import spydrnet as sdn
+    fn = getattr(sdn, "get_" + c["fn"])
+    root = c["root"]
+    if root["t"] == "N":
+        obj = reg.get("N", root["id"])
+    elif root["t"] == "E":
+        obj = reg.get(root["kind"], root["id"])
+    elif root["t"] == "S":
+        obj = [reg.get(root["kind"], x) for x in root["ids"]]
+    else:
+        obj = _href_from_path(reg, root["h"])
+    kw = {}
+    if c.get("sel", "DEFAULT") in ("ALL", "INSIDE", "OUTSIDE", "BOTH"):
+        kw["selection"] = c["sel"]
+    elif c.get("sel") == "DEFAULT":
+        kw["recursive"] = bool(c.get("rec", False))
+    res = list(fn(obj, **kw))
+    reg.last_ret = [_path_of_href(reg, h) for h in res]
+    reg.last_info = [_href_info(reg, h, p) for h, p in zip(res, reg.last_ret)]
+    held = getattr(reg, "held", None)
+    if held is not None:          # the walk keeps the references it was handed, like a user would
+        for h, p in zip(res, reg.last_ret):
+            held.setdefault(json.dumps(p), h)
+    return []
+
+
+def _q_hcheck(reg, c):
+    infos = []
+    held = getattr(reg, "held", None) or {}
+    for path in c["hs"]:
+        href = held.get(json.dumps(path)) if c.get("held") else None
+        if href is None:
+            href = _href_from_path(reg, path)
+        infos.append(_href_info(reg, href, path))
+    reg.last_ret = []
+    reg.last_info = infos
+    return []
+
+
+QUERY_OPS = {"hq": _q_hq, "hcheck": _q_hcheck}
 
 
 def execute(reg, c):
     """run one call on the implementation.  Returns (outcome, exception class name or '').
     Objects returned by creating calls are bound to the next ids of their kind (the
     specification allocates ids in the same order)."""
+    reg.last_ret = reg.last_info = None
     try:
         created = _do(reg, c)
     except HarnessError:
